@@ -42,7 +42,7 @@ def plan(tier, seed):
         shards += plan_graph_shards("B", n_max=6, n_min=6, k=2, parts=8)
     shards += [dict(s, naming="selfprefix", bound=s["bound"] + " naming=selfprefix")
                for s in plan_graph_shards("A", n_max=4, chunk=8 if tier == "quick" else 4)]
-    req = ["True/PASS", "True/FAIL", "False/PASS", "False/FAIL", "naming:short", "naming:dotted", "aggregate>1", "re-applied"]
+    req = ["True/PASS", "True/FAIL", "False/PASS", "False/FAIL", "naming:short", "naming:dotted", "aggregate>1", "re-applied", "re-configured"]
     return {"shards": shards, "require_nonzero": req}
 
 
@@ -135,13 +135,27 @@ class Files:
         return self.known[h]
 
 
-def check(ns, I, comps, base_mod, arrows, should_only, ev, files, res, decoys=()):
+# (should_only flag, naming option) -> one long-lived DiagramRule object, re-configured (from_file /
+# with_base_module) for every case of the shard.  One object per naming option: switching an object
+# from with_base_module(p) to base_module_included_in_module_names() keeps p in the implementation,
+# and what such a switch should mean is specified nowhere, so it is not exercised.
+REUSED = {}
+
+
+def check(ns, I, comps, base_mod, arrows, should_only, ev, files, res, decoys=(), reuse=False):
     exp = PASS if conformance(ns, I, comps, arrows, should_only) else FAIL
     outcomes = {}
     # dotted naming
     text = diagram_text(comps, arrows)
     r = DiagramRule(should_only_rule=should_only).from_file(files.path(text)).base_module_included_in_module_names()
     outcomes["dotted"] = run_rule(r, ev)
+    if reuse:
+        # one DiagramRule object configured again and again (another file, another base module): it must
+        # behave like a fresh rule with the configuration given last
+        r3 = REUSED.setdefault((should_only, "dotted"), DiagramRule(should_only_rule=should_only))
+        outcomes["dotted-reconfigured-object"] = run_rule(r3.from_file(files.path(text)).base_module_included_in_module_names(), ev)
+        if res is not None:
+            res.stats["re-configured"] += 1
     # the same DiagramRule object applied to other architectures first (rule objects are re-usable)
     for i, d in enumerate(decoys):
         r2 = DiagramRule(should_only_rule=should_only).from_file(files.path(text)).base_module_included_in_module_names()
@@ -151,9 +165,18 @@ def check(ns, I, comps, base_mod, arrows, should_only, ev, files, res, decoys=()
             res.stats["re-applied"] += 1
     if base_mod is not None:
         short = {c: c[len(base_mod) + 1 :] for c in comps}
-        text = diagram_text([short[c] for c in comps], [(short[a], short[b]) for a, b in arrows])
-        r = DiagramRule(should_only_rule=should_only).from_file(files.path(text)).with_base_module(base_mod)
+        text_s = diagram_text([short[c] for c in comps], [(short[a], short[b]) for a, b in arrows])
+        r = DiagramRule(should_only_rule=should_only).from_file(files.path(text_s)).with_base_module(base_mod)
         outcomes["short"] = run_rule(r, ev)
+        if reuse:
+            r3 = REUSED.setdefault((should_only, "short"), DiagramRule(should_only_rule=should_only))
+            outcomes["short-reconfigured-object"] = run_rule(r3.from_file(files.path(text_s)).with_base_module(base_mod), ev)
+            # ... and then pointed at a base module that does not exist, without touching the file: never a verdict
+            undefined = run_rule(r3.with_base_module(base_mod + ".zz_undefined"), ev)
+            if res is not None:
+                res.stats["re-configured-undefined-base"] += 1
+            if undefined[0] != "ERR":
+                return ("re-configured-rule-with-undefined-base-gives-verdict", "short", "a lookup error", list(undefined))
     if res is not None:
         res.transitions += len(outcomes)
         res.evaluations += 1
@@ -173,6 +196,8 @@ def check(ns, I, comps, base_mod, arrows, should_only, ev, files, res, decoys=()
     for k, got in outcomes.items():
         if k.startswith("dotted-after") and got != outcomes["dotted"]:
             return ("message-differs-after-re-application", k, outcomes["dotted"][1], got[1])
+        if k.endswith("reconfigured-object") and got != outcomes[k.split("-")[0]]:
+            return ("re-configured-rule-object-differs-from-fresh-one", k, list(outcomes[k.split("-")[0]]), list(got))
     if exp == FAIL:
         msgs = []
         for rule in generated_rules(comps, arrows, should_only):
@@ -206,7 +231,7 @@ def run_shard(shard, tier, seed):
             for comps, base_mod in component_sets(ns):
                 for arrows in arrow_relations(comps):
                     for so in (True, False):
-                        v = check(ns, I, comps, base_mod, arrows, so, ev, files, res, dec)
+                        v = check(ns, I, comps, base_mod, arrows, so, ev, files, res, dec, reuse=True)
                         if v:
                             res.violation(v[0], {"modules": ns, "imports": I, "components": list(comps), "base": base_mod,
                                                  "arrows": [list(a) for a in arrows], "should_only": so, "naming": v[1], "seed": seed}, v[2], v[3])
